@@ -1,17 +1,18 @@
 (* C19 — Type-mismatch reporting is total and agrees with the lattice.
    Statements only; the proofs are in Proofs/DescribeProofs.v, the model in Model/Describe.v (it mirrors
-   internal/typemismatchdescriber.go and px/types.go:287-315 after the fix commits 02ea9b7, 2f30deb, 566d566).
+   internal/typemismatchdescriber.go and px/types.go:289-316 after the fix commits 02ea9b7, 2f30deb, 566d566).
 
    All theorems hold for every regexp oracle `rx`, every verdict `teq` of TupleType.Equals, ALL types of the
    model universe (no well-formedness or size restriction) and all paths.  `asg rx true` is the model of
    px.IsAssignable (Model/Lattice.v, the code with the by-specification Struct<-Hash rule enabled) and
    `inst rx true` of px.IsInstance.
 
-   Not proved here (input of the model): that inferring the detailed type of a value never fails — the
-   inference is modelled by C04 (Model/Infer.v); assert_instance takes the inferred type `dt` as an argument
-   and the theorems hold for every `dt`.  The harness checks px.DetailedValueType on every pool value. *)
+   The detailed type of a value is an argument `dt` of assert_instance and the theorems hold for every `dt`;
+   C19_detailed_never_fails instantiates it with the model of px.DetailedValueType that property C04 owns
+   (Model/Infer.v infer_detailed, a total function tied to the code by C04's correspondence).  The harness of
+   C19 checks px.DetailedValueType on every pool value and feeds the implementation's inferred type to the model. *)
 From Coq Require Import ZArith NArith Bool List.
-From PcoreV Require Import Model.Base Model.Ty Model.Lattice Model.Describe Proofs.DescribeProofs.
+From PcoreV Require Import Model.Base Model.Ty Model.Lattice Model.Describe Model.Infer Proofs.DescribeProofs Proofs.DescribeInfer.
 Import ListNotations.
 Open Scope Z_scope.
 
@@ -73,6 +74,23 @@ Theorem C19_assert_detail_is_description :
                  assert_instance rx teq name e v dt = Ok (Raises TypeMismatchIssue (m :: ms)).
 Proof. exact assert_instance_detail. Qed.
 Print Assumptions C19_assert_detail_is_description.
+
+(* with the inferred detailed type of C04's model in place: an instance assertion on ANY value never faults
+   (neither the inference nor the description), returns exactly on instances and raises the type mismatch
+   issue, naming the subject, exactly on non-instances *)
+Theorem C19_detailed_never_fails :
+  forall rx teq name e v, exists o, assert_instance rx teq name e v (infer_detailed rx v) = Ok o.
+Proof. exact assert_inferred_total. Qed.
+Print Assumptions C19_detailed_never_fails.
+
+Theorem C19_assert_inferred_raises_iff_not_instance :
+  forall rx teq name e v,
+    (assert_instance rx teq name e v (infer_detailed rx v) = Ok Returns <-> inst rx true e v = true) /\
+    ((exists m ms, assert_instance rx teq name e v (infer_detailed rx v) = Ok (Raises TypeMismatchIssue (m :: ms)) /\
+                   Forall (fun m' => hd_error (snd m') = Some (PSubject, KName (fn_prefix ++ name ++ [58%N]))) (m :: ms))
+     <-> inst rx true e v = false).
+Proof. exact assert_inferred_raises_iff. Qed.
+Print Assumptions C19_assert_inferred_raises_iff_not_instance.
 
 (* AssertType: the same for a type *)
 Theorem C19_assert_type_total :
